@@ -184,9 +184,9 @@ def scheduleEvent (s : St) (r : Rollapp) : St × Rollapp :=
 
 /-- `IndicateLiveness` followed by `SetRollapp` -/
 def indicateLiveness (s : St) (r : Rollapp) : St :=
-  let (s1, r1) := resetClock s r
-  let (s2, r2) := scheduleEvent s1 r1
-  setRa s2 r2
+  let x := resetClock s r
+  let y := scheduleEvent x.1 x.2
+  setRa y.1 y.2
 
 -- ---------------------------------------------------------------- proposer choice (x/sequencer/keeper/rotation.go)
 
@@ -201,18 +201,20 @@ def choose (s : St) (ra : Nat) : Option Addr :=
     | some b => if b.tokens < q.tokens then some q else some b) none
   best.map (·.addr)
 
+/-- set `NextProposer` of the latest state info (if any) -/
+def setLastNext (l : List SInfo) (n : NextP) : List SInfo :=
+  match l.reverse with
+  | [] => l
+  | x :: rest => (({ x with next := n }) :: rest).reverse
+
 /-- rollapp hook `AfterSetRealProposer` -/
 def afterSetRealProposer (s : St) (ra : Nat) (newP : Addr) : St :=
   match getRa s ra with
   | none => s
   | some r =>
-    let s1 := indicateLiveness s r
-    match getRa s1 ra with
-    | none => s1
-    | some r1 =>
-      match r1.states.reverse with
-      | [] => s1
-      | l :: rest => setRa s1 { r1 with states := (({ l with next := NextP.addr newP }) :: rest).reverse }
+    match getRa (indicateLiveness s r) ra with
+    | none => indicateLiveness s r
+    | some r1 => setRa (indicateLiveness s r) { r1 with states := setLastNext r1.states (NextP.addr newP) }
 
 /-- `RecoverFromSentinel` -/
 def recoverFromSentinel (s : St) (ra : Nat) : M St :=
@@ -254,25 +256,71 @@ def removeIdxAbove (q : List QEntry) (ra keep : Nat) : List QEntry :=
 def pruneSeqHeights (sh : List (Addr × Nat)) (creators : List Addr) (h : Nat) : List (Addr × Nat) :=
   sh.filter (fun p => !(creators.contains p.1 && h < p.2))
 
+/-- `optOutAllSequencers` -/
+def optOutAll (s : St) (ra : Nat) : St :=
+  { s with seqs := s.seqs.map (fun q => if q.rollapp == ra then { q with optedIn := false } else q) }
+
+/-- `removeFromNoticeQueue` -/
+def removeFromNoticeQueue (s : St) (q : Seq) : St :=
+  match q.notice with
+  | some t => { s with nq := s.nq.filter (fun e => !(e.1 == t && e.2 == q.addr)) }
+  | none => s
+
+def setProposer (s : St) (ra : Nat) (a : Option Addr) : St :=
+  match getRa s ra with
+  | none => s
+  | some r => setRa s { r with proposer := a }
+
+def setSuccessor (s : St) (ra : Nat) (a : Option Addr) : St :=
+  match getRa s ra with
+  | none => s
+  | some r => setRa s { r with successor := a }
+
+/-- `abruptRemoveProposer`: take the proposer out of the notice queue, unbond it, proposer := sentinel -/
+def abruptRemoveProposer (s : St) (ra : Nat) : St :=
+  match getRa s ra with
+  | none => s
+  | some r =>
+    match r.proposer with
+    | none => s
+    | some a =>
+      match getSeq s a with
+      | none => s     -- `GetProposer` falls back to the sentinel for a missing record
+      | some q => setProposer (setSeq (removeFromNoticeQueue s q) { q with bonded := false }) ra none
+
 /-- sequencer hook `OnHardFork`: opt out all sequencers of the rollapp, abruptly remove the proposer,
     clear the successor -/
 def seqOnHardFork (s : St) (ra : Nat) : St :=
-  let s1 := { s with seqs := s.seqs.map (fun q => if q.rollapp == ra then { q with optedIn := false } else q) }
-  match getRa s1 ra with
-  | none => s1
-  | some r =>
-    let s2 := match r.proposer with
-      | none => s1
-      | some a => match getSeq s1 a with
-        | none => s1
-        | some q =>
-          let nq := match q.notice with
-            | some t => s1.nq.filter (fun e => !(e.1 == t && e.2 == a))
-            | none => s1.nq
-          setSeq { s1 with nq := nq } { q with bonded := false }
-    match getRa s2 ra with
-    | none => s2
-    | some r2 => setRa s2 { r2 with proposer := none, successor := none }
+  setSuccessor (abruptRemoveProposer (optOutAll s ra) ra) ra none
+
+/-- `RevertPendingStates` + `UpdateLastStateInfo`, decision part: the 1-based index to keep and the
+    kept state's new contents (possibly truncated), or the refusal -/
+def revertPlan (r : Rollapp) (newRevH : Nat) : M (Nat × SInfo) :=
+  let found : M Nat :=
+    match findByHeight r newRevH with
+    | some i =>
+      match r.states[i - 1]? with
+      | some st => if st.finalized then .error .finalizedHeight else .ok i
+      | none => .error .internal
+    | none => if r.states.isEmpty then .error .noState else .ok r.states.length
+  match found with
+  | .error e => .error e
+  | .ok i =>
+    match r.states[i - 1]? with
+    | none => .error .internal
+    | some st =>
+      if newRevH < st.start then .error .internal else
+      if st.start = newRevH then
+        match (if i ≤ 1 then none else r.states[i - 2]?) with
+        | none => .error .noState
+        | some prev => .ok (i - 1, { prev with next := NextP.empty })
+      else if newRevH ≤ st.last then
+        .ok (i, { st with num := newRevH - st.start, bds := st.bds.take (newRevH - st.start), next := NextP.empty })
+      else .ok (i, { st with next := NextP.empty })
+
+/-- the rollapp record after the revert: states truncated, revision bumped -/
+def forkedRollapp (r : Rollapp) (keep : Nat) (kst : SInfo) : Rollapp :=
+  { r with states := r.states.take (keep - 1) ++ [kst], revs := r.revs ++ [(latestRev r + 1, kst.last + 1)] }
 
 /-- `HardFork(rollapp, lastValidHeight)` -/
 def hardFork (s : St) (ra : Nat) (lastValid : Nat) : M St :=
@@ -280,46 +328,15 @@ def hardFork (s : St) (ra : Nat) (lastValid : Nat) : M St :=
   | none => .error .unknownRollapp
   | some r =>
     if !(0 < r.tph && r.tph ≤ lastValid) then .error .forkNotAllowed else
-    let newRevH := (lastValid + 1) % 2 ^ 64
-    if newRevH = 0 then .error .invalid else
-    -- RevertPendingStates
-    let found : M Nat :=
-      match findByHeight r newRevH with
-      | some i =>
-        match r.states[i - 1]? with
-        | some st => if st.finalized then .error .finalizedHeight else .ok i
-        | none => .error .internal
-      | none => if r.states.isEmpty then .error .noState else .ok r.states.length
-    match found with
+    if (lastValid + 1) % 2 ^ 64 = 0 then .error .invalid else
+    match revertPlan r ((lastValid + 1) % 2 ^ 64) with
     | .error e => .error e
-    | .ok i =>
-      match r.states[i - 1]? with
-      | none => .error .internal
-      | some st =>
-        -- UpdateLastStateInfo
-        if newRevH < st.start then .error .internal else
-        let keepM : M (Nat × SInfo) :=
-          if st.start = newRevH then
-            match (if i ≤ 1 then none else r.states[i - 2]?) with
-            | none => .error .noState
-            | some prev => .ok (i - 1, prev)
-          else if newRevH ≤ st.last then
-            .ok (i, { st with num := newRevH - st.start, bds := st.bds.take (newRevH - st.start) })
-          else .ok (i, st)
-        match keepM with
-        | .error e => .error e
-        | .ok (keep, kst) =>
-          let kst := { kst with next := NextP.empty }
-          let removed := r.states.drop keep
-          -- creators of the deleted states and of the kept (possibly truncated) state
-          let creators := kst.creator :: removed.map (·.creator)
-          let states' := r.states.take (keep - 1) ++ [kst]
-          let lastH := kst.last
-          let r1 := { r with states := states', revs := r.revs ++ [(latestRev r + 1, lastH + 1)] }
-          let s1 := { s with queue := removeIdxAbove s.queue ra keep, seqH := pruneSeqHeights s.seqH creators lastH }
-          let (s2, r2) := resetClock s1 r1
-          let s3 := setRa s2 r2
-          .ok (seqOnHardFork s3 ra)
+    | .ok (keep, kst) =>
+      -- creators of the deleted states and of the kept (possibly truncated) state
+      let creators := kst.creator :: (r.states.drop keep).map (·.creator)
+      let s1 := { s with queue := removeIdxAbove s.queue ra keep, seqH := pruneSeqHeights s.seqH creators kst.last }
+      let x := resetClock s1 (forkedRollapp r keep kst)
+      .ok (seqOnHardFork (setRa x.1 x.2) ra)
 
 /-- `HardForkToLatest` -/
 def hardForkToLatest (s : St) (ra : Nat) : M St :=
@@ -425,9 +442,47 @@ def onProposerLastBlock (s : St) (prop : Seq) : M St :=
     | none => hardForkToLatest s1 r.id
     | some a => .ok (afterSetRealProposer s1 r.id a)
 
+/-- timestamp rule and expected start height of `UpdateState` -/
+def updPre (r : Rollapp) (m : UpdMsg) : M Unit :=
+  match r.states.getLast? with
+  | some l =>
+    if ((l.bds.getLast?.map (·.hasTs)).getD false) && !(m.bds.all (·.hasTs)) then .error .noTimestamp
+    else if l.start + l.num ≠ m.start then .error .wrongHeight
+    else .ok ()
+  | none => if !(m.bds.all (·.hasTs)) then .error .noTimestamp else .ok ()
+
+/-- `NextProposer` recorded in the new state info -/
+def updSucc (r : Rollapp) (m : UpdMsg) : NextP :=
+  if m.last then (match r.successor with | some a => NextP.addr a | none => NextP.sentinel)
+  else NextP.addr m.sender
+
+def newSInfo (s : St) (m : UpdMsg) (succ : NextP) : SInfo :=
+  { creator := m.sender, start := m.start, num := m.num, creationHeight := s.h,
+    finalized := false, next := succ, bds := m.bds, accRev := m.rev, finalizedAt := 0 }
+
+/-- append a state index to the finalization queue entry (hub height, rollapp) -/
+def queueAppend (q : List QEntry) (h ra idx : Nat) : List QEntry :=
+  if q.any (fun e => e.ch == h && e.ra == ra) then
+    q.map (fun e => if e.ch == h && e.ra == ra then { e with idx := e.idx ++ [idx] } else e)
+  else insertSorted (fun a b => ltPair (a.ch, a.ra) (b.ch, b.ra)) { ch := h, ra := ra, idx := [idx] } q
+
+/-- `SaveSequencerHeight` for every block descriptor -/
+def addSeqHeights (sh : List (Addr × Nat)) (a : Addr) (bds : List BD) : List (Addr × Nat) :=
+  bds.foldl (fun acc b => insertSorted ltPair (a, b.height) acc) sh
+
+/-- sequencer hook `AfterUpdateState`: honour the proposer, hand over on the last block -/
+def seqAfterUpdate (s : St) (m : UpdMsg) (isLast : Bool) : M St :=
+  match getSeq s m.sender with
+  | none => .error .internal
+  | some prop =>
+    let prop1 := { prop with dishonor := prop.dishonor - min s.p.dishonorSU prop.dishonor }
+    if isLast then onProposerLastBlock (setSeq s prop1) prop1 else .ok (setSeq s prop1)
+
 /-- `MsgUpdateState` handler (x/rollapp/keeper/msg_server_update_state.go) -/
-def updateState (s : St) (m : UpdMsg) : M St := do
-  updValidateBasic m
+def updateState (s : St) (m : UpdMsg) : M St :=
+  match updValidateBasic m with
+  | .error e => .error e
+  | .ok () =>
   match getRa s m.ra with
   | none => .error .unknownRollapp
   | some r =>
@@ -435,48 +490,20 @@ def updateState (s : St) (m : UpdMsg) : M St := do
     if r.proposer != some m.sender then .error .notProposer else
     if m.last && !awaitingLast s r then .error .badLast else
     if latestRev r != m.rev then .error .wrongRevision else
-    let allTs := m.bds.all (·.hasTs)
-    let pre : M Unit :=
-      match r.states.getLast? with
-      | some l =>
-        let lastHasTs := (l.bds.getLast?.map (·.hasTs)).getD false
-        if lastHasTs && !allTs then .error .noTimestamp
-        else if l.start + l.num ≠ m.start then .error .wrongHeight
-        else .ok ()
-      | none => if !allTs then .error .noTimestamp else .ok ()
-    match pre with
+    match updPre r m with
     | .error e => .error e
     | .ok () =>
-      let succ : NextP :=
-        if m.last then (match r.successor with | some a => NextP.addr a | none => NextP.sentinel)
-        else NextP.addr m.sender
-      let lastDrs := (m.bds.getLast?.map (·.drs)).getD 0
-      if s.obsolete.contains lastDrs then .error .obsolete else
-      let st : SInfo := { creator := m.sender, start := m.start, num := m.num, creationHeight := s.h,
-                          finalized := false, next := succ, bds := m.bds, accRev := m.rev, finalizedAt := 0 }
-      let newIdx := r.states.length + 1
-      let s1 := setRa s { r with states := r.states ++ [st] }
-      -- AfterUpdateState (sequencer hook): honour the proposer, hand over on the last block
-      match getSeq s1 m.sender with
-      | none => .error .internal
-      | some prop =>
-        let prop1 := { prop with dishonor := prop.dishonor - min s1.p.dishonorSU prop.dishonor }
-        let s2 := setSeq s1 prop1
-        let isLast := succ != NextP.addr m.sender
-        let s3m : M St := if isLast then onProposerLastBlock s2 prop1 else .ok s2
-        match s3m with
-        | .error e => .error e
-        | .ok s3 =>
-          -- finalization queue append under (hub height, rollapp)
-          let q' :=
-            if s3.queue.any (fun e => e.ch == s3.h && e.ra == m.ra) then
-              s3.queue.map (fun e => if e.ch == s3.h && e.ra == m.ra then { e with idx := e.idx ++ [newIdx] } else e)
-            else insertSorted (fun a b => ltPair (a.ch, a.ra) (b.ch, b.ra)) { ch := s3.h, ra := m.ra, idx := [newIdx] } s3.queue
-          let sh := m.bds.foldl (fun acc b => insertSorted ltPair (m.sender, b.height) acc) s3.seqH
-          let s4 := { s3 with queue := q', seqH := sh }
-          match getRa s4 m.ra with
-          | none => .error .internal
-          | some r4 => .ok (indicateLiveness s4 r4)
+      if s.obsolete.contains ((m.bds.getLast?.map (·.drs)).getD 0) then .error .obsolete else
+      match seqAfterUpdate (setRa s { r with states := r.states ++ [newSInfo s m (updSucc r m)] }) m
+              (updSucc r m != NextP.addr m.sender) with
+      | .error e => .error e
+      | .ok s3 =>
+        -- finalization queue append under (hub height, rollapp); sequencer heights; liveness
+        let s4 := { s3 with queue := queueAppend s3.queue s3.h m.ra (r.states.length + 1),
+                            seqH := addSeqHeights s3.seqH m.sender m.bds }
+        match getRa s4 m.ra with
+        | none => .error .internal
+        | some r4 => .ok (indicateLiveness s4 r4)
 
 /-- `MsgCreateSequencer` (bond denom validity carried by `denomOk`) -/
 def createSeq (s : St) (a : Addr) (ra : Nat) (bond : Nat) (denomOk : Bool) : M St :=
@@ -516,6 +543,12 @@ def decreaseBond (s : St) (a : Addr) (amt : Nat) : M St :=
     | .error e => .error e
     | .ok (s1, q1) => .ok (setSeq s1 q1)
 
+/-- `ForkLatestAllowed` -/
+def forkLatestAllowed (r : Rollapp) : Bool :=
+  match latestHeight r with
+  | none => false
+  | some lh => 0 < r.tph && r.tph ≤ lh
+
 /-- `MsgUnbond` -/
 def unbond (s : St) (a : Addr) : M St :=
   match getSeq s a with
@@ -525,19 +558,13 @@ def unbond (s : St) (a : Addr) : M St :=
     | none => .error .panic
     | some r =>
       if awaitingLast s r && (isProposer s q || isSuccessor s q) then .error .rotationInProgress else
-      let q := { q with optedIn := false }
       if isProposer s q then
-        -- ForkLatestAllowed
-        let allowed := match latestHeight r with
-          | none => false
-          | some lh => 0 < r.tph && r.tph ≤ lh
-        if !allowed then .error .forkNotAllowed else
+        if !forkLatestAllowed r then .error .forkNotAllowed else
         if noticeInProgress q s.t then .error .noticeInProgress else
-        let t := s.t + s.p.noticePeriod
-        let q1 := { q with notice := some t }
-        .ok (setSeq { s with nq := insertSorted ltPair (t, a) s.nq } q1)
+        .ok (setSeq { s with nq := insertSorted ltPair (s.t + s.p.noticePeriod, a) s.nq }
+                    { q with optedIn := false, notice := some (s.t + s.p.noticePeriod) })
       else
-        match tryUnbond s q q.tokens with
+        match tryUnbond s { q with optedIn := false } q.tokens with
         | .error e => .error e
         | .ok (s1, q1) => .ok (setSeq s1 q1)
 
@@ -570,12 +597,7 @@ def kick (s : St) (a : Addr) : M St :=
         | some prop =>
           if a = pa then .error .notKickable else
           if !(s.p.kickThr ≤ prop.dishonor) then .error .notKickable else
-          -- abruptRemoveProposer
-          let nq := match prop.notice with
-            | some t => s.nq.filter (fun e => !(e.1 == t && e.2 == pa))
-            | none => s.nq
-          let s1 := setSeq { s with nq := nq } { prop with bonded := false }
-          let s2 := setRa s1 { r with proposer := none }
+          let s2 := abruptRemoveProposer s r.id
           match hardForkToLatest s2 r.id with
           | .error e => .error e
           | .ok s3 =>
@@ -681,32 +703,31 @@ def finalizeRollappStates (s : St) (fails : List (Nat × Nat)) : St :=
   let fh := s.h - s.p.dispute
   finalizeAll s fails (s.queue.filter (fun e => e.ch ≤ fh)) []
 
+/-- `SlashLiveness`: slash and dishonour the proposer (no-op when the proposer is the sentinel) -/
+def slashLiveness (s : St) (r : Rollapp) : M St :=
+  match r.proposer with
+  | none => .ok s
+  | some a =>
+    match getSeq s a with
+    | none => .ok s   -- GetProposer falls back to the sentinel
+    | some q =>
+      match slash s q (min q.tokens (max s.p.lsAbs ((s.p.lsMul.mulInt q.tokens).truncateInt).toNat)) ⟨0⟩ none with
+      | .error e => .error e
+      | .ok (s1, q1) => .ok (setSeq s1 { q1 with dishonor := q1.dishonor + s1.p.dishonorL })
+
 /-- `HandleLivenessEvent` (inside ApplyFuncIfNoError: on error nothing changes) -/
 def handleLivenessEvent (s : St) (ra : Nat) : St :=
   match getRa s ra with
   | none => s
   | some r =>
-    let slashed : M St :=
-      match r.proposer with
-      | none => .ok s
-      | some a =>
-        match getSeq s a with
-        | none => .ok s   -- GetProposer falls back to the sentinel
-        | some q =>
-          let tm := ((s.p.lsMul.mulInt q.tokens).truncateInt).toNat
-          let amt := min q.tokens (max s.p.lsAbs tm)
-          match slash s q amt ⟨0⟩ none with
-          | .error e => .error e
-          | .ok (s1, q1) => .ok (setSeq s1 { q1 with dishonor := q1.dishonor + s1.p.dishonorL })
-    match slashed with
+    match slashLiveness s r with
     | .error _ => s
     | .ok s1 =>
       match getRa s1 ra with
       | none => s
       | some r1 =>
-        let s2 := { s1 with lev := delEvent s1.lev s1.h ra }
-        let (s3, r3) := scheduleEvent s2 r1
-        setRa s3 r3
+        setRa (scheduleEvent { s1 with lev := delEvent s1.lev s1.h ra } r1).1
+              (scheduleEvent { s1 with lev := delEvent s1.lev s1.h ra } r1).2
 
 /-- `CheckLiveness` -/
 def checkLiveness (s : St) : St :=
